@@ -474,7 +474,7 @@ def _sample_goals(ctx, rng):
         tol = 1e-12 * (abs(val) if scale is None else scale) + 1e-300
         goals.append((label, expr, val, tol))
 
-    n2 = ctx.scale(4, 12)
+    n2 = ctx.scale(4, 24)
     for i in range(n2):
         Rr = RADII[i % len(RADII)]
         n = [8, 5, 3, 6, 8, 2][i % 6]
@@ -508,7 +508,7 @@ def _sample_goals(ctx, rng):
                 add(f"line2d amps={amps} phi=phis[{k}]", f"line2d {R_(float(phis[k]))} {L}", elems[k])
         ctx.case(["sample2d", Rr, amps])
         ctx.count("sample_class", "PerturbedDroplet2D")
-    n3 = ctx.scale(3, 9)
+    n3 = ctx.scale(3, 16)
     for cls_name, tag in (("PerturbedDroplet3D", "3d"), ("PerturbedDroplet3DAxisSym", "3s")):
         for i in range(n3):
             Rr = RADII[(i + 2) % len(RADII)]
@@ -565,7 +565,7 @@ def check(ctx: vlib.Ctx) -> int:
             ctx.broken.append(f"sample-goal inputs could not be evaluated by the implementation: {type(e).__name__}: {e}")
     big = bool(ctx.broken)
     try:
-        fails = oracle(rng, ctx.scale(6, 30) * (2 if big else 1), ctx, heavy_count=ctx.scale(2, 8))
+        fails = oracle(rng, ctx.scale(6, 60) * (2 if big else 1), ctx, heavy_count=ctx.scale(2, 12))
     except Exception as e:
         import traceback
         fails = [{"what": f"implementation raised {type(e).__name__}: {e}", "traceback": traceback.format_exc()[-600:]}]
